@@ -304,6 +304,90 @@ def rule_cursor(ctx, R):
                       "%s's cursor is an index into a list that is rebuilt (and sorted) from the live collection on every call: deleting an element that sorts before the cursor shifts all later elements down by one, and an element present throughout the iteration is skipped (keys a,b,c COUNT 1: call 1 -> a, cursor 1; DEL a; call 2 indexes [b,c][1] = c; b is never returned)" % nm.upper(), b.loc(hit))
 
 
+def zero_cursor_without_exhaustion(b):
+    """[(block, witness)] stores of the constant 0 into a u64 local (the next cursor) from which a
+    return is reachable without another store to that local and without an exhaustion test --
+    a comparison between a position (usize) and the `len()` of a collection, in the sense
+    `position >= len` (or `is_empty()`); path-sensitive (flags, `||`, early returns)."""
+    import boolpath
+    out = []
+
+    def is_len(o):
+        return not op_is_const(o) and prov.operand_origins(b, o).has_call(r"::len$")
+
+    def copies_back(l, depth=0):
+        """locals l is a plain copy / cast of (transitively)"""
+        out_ = {l}
+        for kind, bbi, x in prov.build_defs(b).get(l, ()):
+            if kind == "stmt" and not x["l"]["p"] and x["r"]["k"] in ("use", "cast") and not op_is_const(x["r"]["o"]) and depth < 6:
+                pl = op_place(x["r"]["o"])
+                if not [e for e in pl["p"] if e != "*" and not (isinstance(e, dict) and str(e.get("f")) == "0")]:
+                    out_ |= copies_back(pl["l"], depth + 1)
+        return out_
+    # the position: what the non-zero value of the cursor is a cast of
+    pos = set()
+    for i, bb in enumerate(b.bbs):
+        for st in bb["s"]:
+            if st["k"] == "=" and not st["l"]["p"] and b.locals[st["l"]["l"]] == "u64" and st["r"]["k"] in ("use", "cast") and not op_is_const(st["r"]["o"]):
+                for l in copies_back(op_place(st["r"]["o"])["l"]):
+                    if b.locals[l] == "usize" and b.names.get(l):
+                        pos.add(l)
+
+    def is_pos(o):
+        return not op_is_const(o) and bool(copies_back(op_place(o)["l"]) & pos)
+
+    class X(boolpath.Spec):
+        def stmt(self, b_, bbi, st):
+            r = st["r"]
+            if r["k"] != "bin" or r.get("op") not in ("Ge", "Gt", "Lt", "Le", "Eq", "Ne"):
+                return None
+            a, c = r["a"], r["b"]
+            op = r["op"]
+            if is_len(a) and not is_len(c):
+                a, c = c, a
+                op = {"Ge": "Le", "Gt": "Lt", "Lt": "Gt", "Le": "Ge"}.get(op, op)
+            elif not (is_len(c) and not is_len(a)):
+                return None
+            if op_is_const(a):
+                # `len == 0` / `len > 0`
+                return {"Eq": boolpath.A, "Ne": boolpath.N, "Ge": boolpath.A, "Lt": boolpath.N}.get(op) if const_int(a) == 0 else None
+            # position OP len
+            if not is_pos(a):
+                return None
+            return {"Ge": boolpath.A, "Gt": boolpath.A, "Eq": boolpath.A, "Lt": boolpath.N, "Le": None, "Ne": boolpath.N}.get(op)
+
+        def call(self, b_, bbi, t):
+            return boolpath.A if re.search(r"::is_empty$", t["f"] or "") else None
+    stores = {}
+    for i, bb in enumerate(b.bbs):
+        if bb["cleanup"]:
+            continue
+        for st in bb["s"]:
+            if st["k"] == "=" and not st["l"]["p"] and b.locals[st["l"]["l"]] == "u64" and st["r"]["k"] in ("use", "cast"):
+                stores.setdefault(st["l"]["l"], []).append((i, const_int(st["r"]["o"]) == 0 if op_is_const(st["r"]["o"]) else False))
+    rets = {x for x, bb in enumerate(b.bbs) if bb["t"]["k"] == "return"}
+    try:
+        ex0 = boolpath.explore(b, X())
+    except boolpath.TooManyStates:
+        return out
+    for l, ss in stores.items():
+        zeros = [i for i, z in ss if z]
+        others = {i for i, z in ss if not z}
+        if not zeros or not others:
+            continue       # not a cursor chosen between 0 and a position
+        for z in zeros:
+            if z not in ex0.reached:
+                continue
+            # evidence-free arrival at the store: can a return be reached from it without passing
+            # another store to the same local?  (state at arrival: the flags known there)
+            key = ex0.reached[z]
+            ex = boolpath.explore(b, X(), starts=(z,), init=dict(key[1]), stop=others - {z})
+            hit = sorted(rets & set(ex.reached))
+            if hit:
+                out.append((z, ex0.witness(b, z)))
+    return out
+
+
 def rule_term(ctx, R):
     for nm in FNS:
         b = ctx.prog.need(ENGINE + nm)
@@ -336,9 +420,16 @@ def rule_term(ctx, R):
                         continue
                     if r["k"] == "bin" and r["op"] in ("Sub", "SubWithOverflow"):
                         mono = False
-        R.inst(b.fn, "termination", {"function": nm, "zero_cursor_at_end": ok, "position_monotone": mono})
+        early = zero_cursor_without_exhaustion(b)
+        if early:
+            ok = True      # a zero cursor is produced; whether only at the end is the clause below
+        R.inst(b.fn, "termination", {"function": nm, "zero_cursor_at_end": ok, "position_monotone": mono, "zero_cursor_only_when_exhausted": not early})
         if not ok:
             R.finding(b.fn, "term:no-zero-cursor", "%s never returns cursor 0 on reaching the end of the collection: a full iteration does not terminate" % nm, b.loc())
+        for (x, path) in early[:1]:
+            R.finding(b.fn, "term:zero-cursor-before-the-end",
+                      "%s can answer cursor 0 (stored at line %d) on a path with no test that its position has reached the length of the collection: the client takes the iteration for complete while elements behind the position were never returned" % (nm, b.bb_line(x)),
+                      b.loc(x), ["bb%d line %d" % (y, b.bb_line(y)) for y in path][-8:])
         if not mono:
             R.finding(b.fn, "term:position-decreases", "%s can move its position backwards" % nm, b.loc())
 
